@@ -14,3 +14,4 @@ open Fzf.Props.C15
 #print axioms C15_same_length_queries_differ
 #print axioms C15_prompt_shows_query
 #print axioms C15_info_shows_counts
+#print axioms C15_max_min_are_source
